@@ -11,11 +11,12 @@ CASE_TYPE = "(cin * cout)"
 RUN, EQB = "run_case", "out_eqb"
 CHUNK = 50
 N = {"quick": 500, "thorough": 6000}
-RULE = ("PUBO / PCBO / PUSO / PCSO models (2-6 variables, degree up to 5, labels of mixed types, models with stale variables) "
+RULE = ("PUBO / PCBO / PUSO / PCSO models (2-6 variables, degree up to 5, labels of mixed types, models with stale variables, "
+        "35 % renumbered with set_mapping / set_reverse_mapping, histories convert - edit - convert incl. same-hash coefficient changes) "
         "through to_pubo(deg) / to_qubo / to_quso / to_puso(deg) with deg in {None, 2..5}, penalty None / constant small and "
         "large / callable, pairs hints incl. unknown labels; non-trivial = at least one reduction needed (degree > target); "
         "distinct by canonical JSON")
-THEOREMS = "C01_core C01_extension C01_lower C01_lower_default C01_minimiser C01_degree C01_to_quso C01_to_puso C01_spin_extension C01_spin_lower C01_step"
+THEOREMS = "C01_core C01_extension C01_lower C01_lower_default C01_minimiser C01_degree C01_to_quso C01_to_puso C01_spin_extension C01_spin_lower C01_step C01_renumbered_extension C01_renumbered_minimiser"
 MODELLED = ("callable penalties come from a fixed menu; the spin route multiplies by float constants (exact on the dyadic "
             "coefficients generated)")
 
